@@ -56,7 +56,21 @@ def c04(ck):
     # the decoder as the Cli drives it (one process_byte call per byte, its memory kept between calls): sessions of keys and malformed bytes
     # against the model, judged on line, cursor and handler calls
     cs = [gen.rand_session(rng, rng.choice([15, 40]), api=False, malformed=True) for _ in range(3000 if thorough else 1200)]
-    ck.run_family(Family("cli-decoding", "ses", cs, decisive=False, shrink=core.shrink_ops_line(4),
+    ck.run_family(Family("cli-decoding", "ses", cs, decisive=False, shrink=core.shrink_ops_line(4), oracle=make_abstract_oracle(cs, fields=("text", "cur", "calls")),
+                         project=lambda o: [(s_["text"], s_["cur"], s_["calls"]) for s_ in (parse_steps(o) or [])] or o,
+                         nontrivial=lambda c, o: "0d" in c or "0a" in c))
+    # the same with application calls (Cli::write, set_prompt) anywhere, also BETWEEN the bytes of one key
+    ca = [gen.rand_session(rng, rng.choice([15, 40]), api=True, malformed=True) for _ in range(2000 if thorough else 800)]
+    # every key unit of more than one byte with, at every byte boundary, an application call or an ignored control byte in between:
+    # the call must not disturb the decoder, the control byte is input like any other (it ends a CR LF pairing and an ESC [ opener)
+    units = ["0d0a", "0a0d", "1b5b41", "1b5b42", "1b5b43", "1b5b44", "1b5b313b3543", "1b5b357e", "c3a9", "e282ac", "f09f9880", "0d0a0d0a", "1b1b5b41"]
+    for u in units:
+        bs = [u[i:i + 2] for i in range(0, len(u), 2)]
+        for cut in range(1, len(bs)):
+            for mid in ("w:s6f", "w:s6f6b0a", "w:", "p:2", "p:1", "b:00", "b:07", "b:11", "b:7f", "b:1b", "b:0d"):
+                for pre in ("b:6162", "b:6162;b:1b5b44"):
+                    ca.append("16 32 1 raw %s;b:%s;%s;b:%s;b:78;b:0d;b:1b5b41" % (pre, "".join(bs[:cut]), mid, "".join(bs[cut:])))
+    ck.run_family(Family("cli-decoding-api", "ses", ca, decisive=False, shrink=core.shrink_ops_line(4), oracle=make_abstract_oracle(ca, fields=("text", "cur", "calls")),
                          project=lambda o: [(s_["text"], s_["cur"], s_["calls"]) for s_ in (parse_steps(o) or [])] or o,
                          nontrivial=lambda c, o: "0d" in c or "0a" in c))
     # ... and across a call that FAILED: decoding depends on the byte sequence only, so the second terminator of a CR LF / LF CR pair is
@@ -232,6 +246,12 @@ def parse_steps(out):
             return None
         steps.append({"r": f[0], "text": f[1], "cur": f[2], "hist": f[3], "p": f[4], "calls": f[5], "sink": f[6]})
     return steps
+
+
+def with_short_writes(rng, case):
+    """the same session with the sink accepting at most 1 / 2 / 3 / 5 bytes per write call (op y:<k>, invisible to the model)"""
+    head, ops = case.rsplit(" ", 1)
+    return head + " y:%d;" % rng.choice([1, 2, 3, 5]) + ops
 
 
 def sinkb(sink):
@@ -444,6 +464,8 @@ def c13(ck):
     # sessions with handler output and Cli::write at arbitrary points: framing of every Enter / write call
     m = 6000 if thorough else 3000
     ses = [gen.rand_session_w1(rng, 25) for _ in range(m)]
+    # the same through a sink with a small transmit buffer (short writes): the text must reach the terminal unchanged all the same
+    ses += [with_short_writes(rng, gen.rand_session_w1(rng, 25)) for _ in range(m // 6)]
 
     def oracle_view(case, io):
         v = drv_run("termchk", [io])[0]
@@ -755,6 +777,34 @@ def c17(ck):
         return None
     ck.run_family(Family("session-scalars", "ses", ses, oracle=oracle_ses, nontrivial=lambda c, o: True,
                          bulk_project=lambda outs: drv_run("termproj", outs)))
+    # the scalar as a short option NO declaration knows (derived parser): the library itself encodes it back into the error line
+    # `unexpected option: -c` (process_error), alone and at the end of a cluster
+    declgen, sets = ensure_decls(ck)
+    # a command that declares arguments (a unit variant does not look at its arguments at all)
+    k0, nm0 = next((k, declgen.q(declgen.cmd_name(c_))) for k, s_ in enumerate(sets) for e in declgen.set_enums(s_)[:1] for c_ in e["cmds"]
+                   if c_["args"] and c_["sub"] is None and not any(declgen.arg_short(a) for a in c_["args"] if a["kind"] != "pos" and declgen.arg_short(a) not in ("v", "j", "i", "n", "f")))
+    dses, want = [], {}
+    for c in gen.BOUNDARY_CPS + gen.LOWBYTE_CPS + [gen.rand_cp(rng, 0) for _ in range(200 if thorough else 40)]:
+        if c in (0x20, 0x7F, 0x22, 0x5C, 0x2D, 0x68) or 0xD800 <= c <= 0xDFFF:
+            continue
+        for tok in ("-" + chr(c), "-" + chr(c) + chr(c)):
+            case = lines_to_session(k0, [nm0 + " " + tok], cap=60)
+            dses.append(case)
+            want[case] = gen.hx(("-" + chr(c)).encode("utf-8"))
+
+    def oracle_unexp(case, io):
+        es = enter_steps(case, io)
+        if es is None:
+            return "crash / malformed output: " + io[:300]
+        for line, st in es:
+            if st is None or st["calls"] != "-":
+                return "a line with an undeclared short option was not rejected: " + str(st and st["calls"])
+            if want[case] not in sinkb(st["sink"]):
+                return "the error line for the undeclared short option does not name it (-c with the scalar encoded as typed, bytes %s): sink %s" % (want[case], sinkb(st["sink"]))
+        return None
+
+    ck.run_family(Family("derived-unexpected-short-option", "ses", dses, oracle=oracle_unexp, nontrivial=lambda c, o: True,
+                         project=lambda o: [(x["r"], x["calls"], sinkb(x["sink"])) for x in (parse_steps(o) or [])] or o))
     return ck.finish(trusted=TB_COMMON + ["Python's and Rust's own UTF-8 encoders/decoders as independent oracles"],
                      rule="utils-boundary-random: boundary and random scalars of every encoded length next to neighbours of other lengths through encode_utf8, "
                      "char_pop_front, char_count, char_byte_index, common_prefix_len, trim_start (implementation vs model vs Python's codec); utilsx: ALL scalar values "
@@ -793,6 +843,7 @@ def c06(ck):
                                    "b:58", "b:" + gen.hx(gen.KEYS["bs"]), "w:s6f", "p:%d" % rng.randrange(4)]))
         ses.append("%d %d %d raw %s" % (rng.choice([8, 16, 32]), rng.choice([0, 8, 16, 32, 64]), rng.randrange(4), ";".join(ops)))
     ses += gen.long_sessions(rng, 8 if thorough else 3)        # a row of more than 255 columns, the cursor taken back over column 256
+    ses += [with_short_writes(rng, gen.rand_session_w1(rng, 25)) for _ in range(n // 8)]        # a sink that takes a few bytes per write call
     ses = list(dict.fromkeys(ses))
     try:
         hb = ck.binaries("hac", "debug")
@@ -871,6 +922,11 @@ def c15(ck):
     thorough = ck.tier == "thorough"
     n = 8000 if thorough else 4000
     ses = [gen.rand_session(rng, rng.choice([10, 30])) for _ in range(n)]
+    # a sink with a small transmit buffer (`write` takes at most 1 / 2 / 4 / 7 bytes per call, the rest is offered again): the bytes are the
+    # same, and everything must still be flushed when the call returns
+    for i in range(n // 4):
+        head, ops = gen.rand_session(rng, rng.choice([10, 30])).rsplit(" ", 1)
+        ses.append(head + " y:%d;" % rng.choice([1, 2, 4, 7]) + ops)
 
     def oracle(case, io):
         st = parse_steps(io)
@@ -1036,8 +1092,20 @@ def c14(ck):
         if (f["text"], f["cur"]) not in (before, after_ok, (".", "0")):
             return "after the failed call the line is %s with the cursor at %s: neither as before (%s at %s), nor as the key would have left it (%s at %s), nor empty" % (
                 f["text"], f["cur"], before[0], before[1], after_ok[0], after_ok[1])
-        # later input is decoded normally: `x` typed with a working sink goes into the line at the cursor (unless the buffer is full)
-        if k + 1 < len(st) - 1 or (k + 1 < len(st) and st[k + 1] is not st[-1]):
+        # later input is decoded normally: `x` typed with a working sink goes into the line at the cursor (unless the buffer is full) -
+        # provided the bytes received so far do not leave the decoder inside an ESC [ sequence (then `x` is its final byte)
+        in_csi, last_b = False, 0
+        for op in case.split(" ", 4)[4].split(";"):
+            if op == "x:off":
+                break
+            if op.startswith("b:") and op[2:] != ".":
+                for b_ in bytes.fromhex(op[2:]):
+                    if in_csi:
+                        in_csi = not (0x40 <= b_ <= 0x7E)
+                    elif last_b == 0x1B and b_ == 0x5B:
+                        in_csi = True
+                    last_b = b_
+        if not in_csi and (k + 1 < len(st) - 1 or (k + 1 < len(st) and st[k + 1] is not st[-1])):
             nx = st[k + 1]
             cap = int(case.split(" ")[0])
             ft = "" if f["text"] == "." else f["text"]
@@ -1134,6 +1202,12 @@ def c01(ck):
     # fails at another point of the session than the model - a comparison with the model would raise false alarms here
     ck.run_family(Family("session-dispatch-faults", "ses", fses, oracle=oracle, decisive=False, shrink=core.shrink_ops_line(4), impl_only=True,
                          nontrivial=lambda c, o: "(" in o and "X" in o))
+    # derived command sets: what is dispatched after a COMPLETION (names with multi-byte characters, tight buffers, blanks and the cursor
+    # moved back before Tab, Backspace / Left / insertions right after it) - the tokens must be those of the line as it stands
+    declgen, sets = ensure_decls(ck)
+    dses = tab_sweep_sessions(declgen, sets)
+    ck.run_family(Family("derived-completion-dispatch", "ses", dses, oracle=oracle, project=proj, shrink=core.shrink_ops_line(4),
+                         nontrivial=lambda c, o: "(" in o))
     return ck.finish(trusted=TB_COMMON, rule="random sessions mixing characters of every encoded length, Backspace, Left/Right, Up/Down, Tab and all four terminators at buffer sizes 0..64 "
                      "(both buffers); handler-call log (name + classified arguments) per byte, line-empty after dispatch, implementation vs model; direct oracle: at most one "
                      "call per byte and the line is empty afterwards. non-trivial = at least one dispatch")
@@ -1355,6 +1429,10 @@ def tab_sweep_sessions(declgen, sets, maxpre=3):
                 for lead in ("", "20"):
                     for cap in range(len(pre) + len(lead) // 2, len(nb) + len(lead) // 2 + 3):
                         out.append("%d 16 1 d%d b:%s%s;b:09;b:0d" % (cap, k, lead, gen.hx(pre)))
+                # editing right AFTER the completion put multi-byte characters into the line: Backspace over them, Left and an insertion
+                # (a cursor or a cached "ASCII only" flag not brought up to date by the completion shows here)
+                for tail in ("b:08;b:08", "b:08;b:08;b:08;b:78", "b:1b5b44;b:1b5b44;b:78", "b:1b5b44;b:6e", "b:08;b:1b5b44;b:08;b:79;b:1b5b43;b:1b5b43;b:7a"):
+                    out.append("%d 16 1 d%d b:%s;b:09;%s;b:0d;b:1b5b41" % (len(nb) + 8, k, gen.hx(pre), tail))
                 # blanks after the word and the cursor moved back into them (and into the word) before Tab
                 for blanks, lefts in ((1, 1), (2, 1), (2, 2), (3, 1), (0, 1)):
                     out.append("%d 16 1 d%d b:%s%s;%sb:09;b:5a;b:0d" % (len(nb) + 8, k, gen.hx(pre), "20" * blanks, "b:1b5b44;" * lefts))
